@@ -167,6 +167,14 @@ def sample_sheets():
                     SAMPLES.append((os.path.basename(path), data))
             except OSError:
                 pass
+        # namespaces whose only use is inside :not() / an attribute selector / a universal selector (what
+        # keepUsedNamespaceRulesOnly must still count as used), next to one that is not used at all
+        for i, sel in enumerate(['*:not(svg|rect)', 'a:not(svg|*)', 'a:not([svg|href])', '[svg|href]', 'svg|*', 'g > *:not(svg|a).c',
+                                 ':not(svg|a):not(.x)', 'b, i:not(svg|b)']):
+            SAMPLES.append(('only-in-not-%d.css' % i, ('@namespace svg "http://www.w3.org/2000/svg"; @namespace un "http://unused/"; '
+                                                      '%s { color: red } b { color: blue }' % sel).encode()))
+            SAMPLES.append(('only-in-not-media-%d.css' % i, ('@namespace "http://d/"; @namespace svg "http://www.w3.org/2000/svg"; '
+                                                            '@media print { %s { color: red } } .c:not(a) { top: 0 }' % sel).encode()))
     return SAMPLES
 
 
